@@ -212,7 +212,9 @@ class MG:
         rng = self.rng
         if self.o["spec_consts"] and rng.random() < 0.3:
             self.tags.add("spec-constant-angle")
-            ang = rng.choice(["cf", "cf * 0.25", "c0", "c0 + 0.125", "cf + c0"])
+            # plain variables only: kirin's type inference leaves an arithmetic expression un-typed when it sits inside an `if`
+            # that follows an early-returning `if` (the kernel is then rejected at definition - not a property of the routes)
+            ang = rng.choice(["cf", "c0"])
             return rng.choice([("gate", "global_rz", [ang]), ("gate", "global_r", [0.5, ang]), ("gate", "local_rz", [ang, rng.choice(["z0", "z1"])])])
         r = rng.random()
         if r < 0.2:
